@@ -13,18 +13,24 @@ def baseline_pairs():
     return json.loads(p.read_text()) if p.exists() else {}
 
 
-def cfg_variants(rng, name, max_cycles_choices=(1, 2, 3, 4), pop_scales=(1,)):
+def cfg_variants(rng, name, max_cycles_choices=(1, 2, 3, 4), pop_scales=(1,), pop_offsets=(0,), vary_params=0.0):
     """configuration overrides around the documented (fixture) configuration: cycle budget, population scale, no early exit by error"""
     base = optimizers.CFGS[name][1]
     out = {"max_cycles": rng.choice(list(max_cycles_choices)), "fitness_error": None}
     scale = rng.choice(list(pop_scales))
-    if scale != 1:
-        out["population_size"] = int(base["population_size"] * scale)
+    if vary_params and rng.random() < vary_params:
+        pvs = optimizers.param_variants(name)
+        if pvs:
+            k, v = rng.choice(pvs)
+            out[k] = v
+    off = rng.choice(list(pop_offsets))
+    if scale != 1 or off:
+        out["population_size"] = int(base["population_size"] * scale) + off
     return out
 
 
 def make_jobs(rng, names, kinds, n_per_class, objectives=("sphere", "linear", "rastrigin", "neg"), minmaxes=("min", "max"),
-              modes=("serial",), max_cycles_choices=(1, 2, 3, 4), pop_scales=(1,), multi=False, dims=(1, 2, 3, 5), only_baseline=True, trace_events=True):
+              modes=("serial",), max_cycles_choices=(1, 2, 3, 4), pop_scales=(1,), pop_offsets=(0,), vary_params=0.0, multi=False, dims=(1, 2, 3, 5), only_baseline=True, trace_events=True):
     base = baseline_pairs()
     jobs = []
     for name in names:
@@ -34,7 +40,7 @@ def make_jobs(rng, names, kinds, n_per_class, objectives=("sphere", "linear", "r
                 kind = rng.choice([k for k in kinds if k not in trace.INT_KINDS] or ["cont-sym"])
             specs = trace.task_specs(rng, kind, rng.choice(list(dims)))
             job = {"name": name, "kind": kind, "specs": specs, "objective": rng.choice(list(objectives)), "minmax": rng.choice(list(minmaxes)),
-                   "seed": rng.randrange(1, 10 ** 6), "cfg": cfg_variants(rng, name, max_cycles_choices, pop_scales), "mode": rng.choice(list(modes)), "trace": trace_events}
+                   "seed": rng.randrange(1, 10 ** 6), "cfg": cfg_variants(rng, name, max_cycles_choices, pop_scales, pop_offsets, vary_params), "mode": rng.choice(list(modes)), "trace": trace_events}
             if job["mode"] != "serial":
                 job["workers"] = rng.choice([1, 2, 3, 4])
             if multi and kind in ("multiobj", "cont", "cont-sym") and rng.random() < 0.5:
